@@ -73,7 +73,9 @@ def make_attrgetter(
             item = environment.getitem(item, part)
 
             if default is not None and isinstance(item, Undefined):
+                # the remaining parts must not be looked up on the default
                 item = default
+                break
 
         if postprocess is not None:
             item = postprocess(item)
